@@ -1334,6 +1334,8 @@ func TestVerifC19(t *testing.T) {
 		"cells": hst.Cells, "cells_decisive": hst.Decisive, "cells_inconclusive_not_judged": hst.Inconclusive, "cells_by_token_state": hst.ByState,
 		"outcome_histogram": hst.Outcomes, "cells_token_expired_after_a_valid_use_of_it": hst.ExpiredAfterValidUse,
 		"valid_token_cells_reached": hst.ReachedValid, "expired_token_cells_kept_out": hst.KeptOutExpired,
+		"cells_with_token_state_as_the_history_intends": hst.AsIntended, "cells_token_state_shifted_by_scheduling_delay(judged_by_actual_state)": hst.NotAsIntended,
+		"histories_rerun_after_transport_error": hst.Retries,
 		"ttl_T1_ms": vHistTTL1.Milliseconds(), "ttl_T2_ms": vHistTTL2.Milliseconds(), "wait_margin_ms": vHistMargin.Milliseconds(),
 		"token_perms": "T1,T2: public+read+write; expired-at-mint: all four", "complete": hst.Complete, "wall_s": hst.Wall,
 	})
